@@ -31,7 +31,7 @@ SameOutcome(a, b) == a.kind = b.kind /\ (a.kind = "ok" => ResEq(a.out, b.out))
 Expected(e) ==      \* the specification's action applied to the recorded pre-state
   CASE e.op = "set"       -> [e.pre EXCEPT ![e.x] = SetKw(@, e.arg[1], e.arg[2])]
     [] e.op = "clear"     -> [e.pre EXCEPT ![e.x] = DelKw(@, e.arg[1])]
-    [] e.op = "putprop"   -> [e.pre EXCEPT ![e.x] = PutProp(@, e.arg)]
+    [] e.op \in {"putprop", "updateprop"} -> [e.pre EXCEPT ![e.x] = PutProp(@, e.arg)]
     [] e.op = "delprop"   -> [e.pre EXCEPT ![e.x] = RemoveProp(@, e.arg[1])]
     [] e.op = "togglereq" -> [e.pre EXCEPT ![e.x] = ToggleRequired(@, e.arg[1])]
     [] e.op = "moveprop"  -> [e.pre EXCEPT ![e.x] = MoveProp(@, e.arg[1], e.arg[2])]
